@@ -129,11 +129,11 @@ func (e *bgvEnv) scheme() *scheme[*bgv.Evaluator] {
 		warm: func(ev *bgv.Evaluator) {
 			x, y := e.ct(e.p.MaxLevel(), 1, 1), e.ct(e.p.MaxLevel(), 5, 1)
 			o := bgv.NewCiphertext(e.p, 2, e.p.MaxLevel())
-			_ = ev.Mul(x, y, o)
-			_ = ev.MulRelin(x, y, o)
-			_ = ev.Add(x, y, o)
-			_ = ev.RotateColumns(x, 1, o)
-			_ = ev.Add(x, e.vals(), o)
+			eng.Panics(func() { _ = ev.Mul(x, y, o) })
+			eng.Panics(func() { _ = ev.MulRelin(x, y, o) })
+			eng.Panics(func() { _ = ev.Add(x, y, o) })
+			eng.Panics(func() { _ = ev.RotateColumns(x, 1, o) })
+			eng.Panics(func() { _ = ev.Add(x, e.vals(), o) })
 		},
 		newCt: func(deg, lvl int) *rlwe.Ciphertext { return bgv.NewCiphertext(e.p, deg, lvl) },
 		dirty: func(r *eng.Rand, deg int) *rlwe.Ciphertext {
@@ -249,15 +249,15 @@ func runBGVBinary(c *eng.Ctx, cfg pcfg, api string) {
 	L := e.p.MaxLevel()
 	c.Sample(map[string]any{"params": cfg, "method": row.api, "patterns": "fresh,out=op0,out=op1,op0=op1,op0=op1=out,hist-poison0..2,hist-warm,hist-out"})
 	type variant struct {
-		name       string
-		la, lb     int
-		sa, sb     uint64
-		da         int
-		accLvl     int
-		accScale   uint64
-		accDeg     int
-		onlyCt     bool
-		withSame   bool
+		name     string
+		la, lb   int
+		sa, sb   uint64
+		da       int
+		accLvl   int
+		accScale uint64
+		accDeg   int
+		onlyCt   bool
+		withSame bool
 	}
 	vs := []variant{
 		{name: "eq", la: L, lb: L, sa: 1, sb: 1, da: 1, accLvl: L, accScale: 1, accDeg: 1, withSame: true},
@@ -283,7 +283,6 @@ func runBGVBinary(c *eng.Ctx, cfg pcfg, api string) {
 		}
 	}
 }
-
 
 type bgvUnary struct {
 	name string
@@ -316,10 +315,14 @@ var bgvUnaries = []bgvUnary{
 		return urow[*bgv.Evaluator]{outDeg: same1, call: func(ev *bgv.Evaluator, in, out *rlwe.Ciphertext) error { return ev.InnerSum(in, 2, 4, out) }}
 	}},
 	{name: "bgv.Evaluator.InnerSum/full", deg: 1, row: func(e *bgvEnv) urow[*bgv.Evaluator] {
-		return urow[*bgv.Evaluator]{outDeg: same1, call: func(ev *bgv.Evaluator, in, out *rlwe.Ciphertext) error { return ev.InnerSum(in, 1, e.p.MaxSlots(), out) }}
+		return urow[*bgv.Evaluator]{outDeg: same1, call: func(ev *bgv.Evaluator, in, out *rlwe.Ciphertext) error {
+			return ev.InnerSum(in, 1, e.p.MaxSlots(), out)
+		}}
 	}},
 	{name: "bgv.Evaluator.InnerSum/n1", deg: 1, row: func(e *bgvEnv) urow[*bgv.Evaluator] {
-		return urow[*bgv.Evaluator]{outDeg: same1, call: func(ev *bgv.Evaluator, in, out *rlwe.Ciphertext) error { return ev.InnerSum(in, e.p.MaxSlots(), 1, out) }}
+		return urow[*bgv.Evaluator]{outDeg: same1, call: func(ev *bgv.Evaluator, in, out *rlwe.Ciphertext) error {
+			return ev.InnerSum(in, e.p.MaxSlots(), 1, out)
+		}}
 	}},
 	{name: "bgv.Evaluator.RotateAndAdd", deg: 1, row: func(e *bgvEnv) urow[*bgv.Evaluator] {
 		return urow[*bgv.Evaluator]{outDeg: same1, call: func(ev *bgv.Evaluator, in, out *rlwe.Ciphertext) error { return ev.RotateAndAdd(in, 2, 3, out) }}
